@@ -37,6 +37,12 @@
 /* The m4 quote around the (empty) action of a '|' rule, see finish_rule(). */
 int     last_finished_rule = 0;
 bool    bar_close_pending = false;
+/* action_kind_unknown - set by the parser for a rule ending in '$', which is
+ * reduced before the scanner has reached its action;
+ * rule_setup_pending - the rule setup of such a rule is still to be emitted.
+ */
+bool    action_kind_unknown = false;
+bool    rule_setup_pending = false;
 
 /* declare functions that have forward references */
 
@@ -210,7 +216,7 @@ void    finish_rule (int mach, bool variable_trail_rule, int headcnt, int trailc
 	/* If this is a continued action, then the line-number has already
 	 * been updated, giving us the wrong number.
 	 */
-	if (continued_action)
+	if (continued_action && !action_kind_unknown)
 		--rule_linenum[num_rules];
 
 
@@ -283,7 +289,14 @@ void    finish_rule (int mach, bool variable_trail_rule, int headcnt, int trailc
 	 * to do any user action.  But don't do it for continued actions,
 	 * as that'll result in multiple rule-setup calls.
 	 */
-	if (!continued_action)
+	if (action_kind_unknown)
+		/* A rule ending in '$' is reduced before the scanner has seen
+		 * its action: continued_action still describes the previous
+		 * rule.  The scanner emits the rule setup when it finds that
+		 * the action is not '|'.
+		 */
+		rule_setup_pending = true;
+	else if (!continued_action)
 		add_action ("M4_HOOK_SET_RULE_SETUP\n");
 
 	line_directive_out(NULL, infilename, linenum);
